@@ -43,6 +43,15 @@ class Layout:
             # twin trees: the SAME relative import string ("w", "../w", ...) written in different directories names different directories
             self.dirs = rng.sample(["p", "q", "p/w", "q/w", "p/w/w", "q/w/w"], rng.choice([3, 4, 5, 6]))
             pimp = 0.6
+        if rng.random() < 0.25:
+            # two directories whose paths differ only in letter case are two directories (two modules)
+            d0 = rng.choice(self.dirs)
+            head, tail = os.path.split(d0)
+            twin = os.path.join(head, tail.upper() if tail.upper() != tail else tail.lower())
+            if twin not in self.dirs:
+                self.dirs.append(twin)
+                self.case_twins = True
+                pimp = max(pimp, 0.5)
         n = len(self.dirs)
         self.imports = {}          # file -> list of dir indices imported by string
         self.comps = {}            # component name -> (dir index, root type name)
@@ -212,6 +221,8 @@ def run(ctx):
             ctx.dist("layout-with-symlinked-components")
         if getattr(lay, "redundant", 0):
             ctx.dist("layout-with-redundant-imports")
+        if getattr(lay, "case_twins", False):
+            ctx.dist("layout-with-case-twin-directories")
         bad = [r for _, r in runs if not isinstance(r, dict) or "visited" not in r]
         if bad:
             ctx.violation("discovery/translation does not terminate normally on this layout: %s" % str(bad[0])[:300], dict(rep, impl_output=str(bad[0])[:1000],
